@@ -258,7 +258,7 @@ def behaviour(ck, cases):
         p = line.split()
         c = bytag.get(p[1])
         ck.count()
-        if p[0] == "DEF" and p[2] != "0":
+        if p[0] == "DEF" and p[2] != "0" and p[3] == "hand":  # a derived Default leaves padding unspecified; the hand-written one zeroes the whole object
             ck.violation(f"{c.cid} default-not-zero", {"cid": c.cid, "behaviour": True, "mask": 0, "impl": True, "why": f"Default::default() ({p[3]}) has {p[2]} non-zero bytes"})
         elif p[0] == "EQ0" and p[2] != "true":
             ck.violation(f"{c.cid} eq-identical-false", {"cid": c.cid, "behaviour": True, "mask": 0, "impl": True, "why": "== is false on two all-zero objects"})
